@@ -65,8 +65,12 @@ US_PARSED = ["meter", "m", "km", "kilometer", "yard", "foot", "ft", "inch", "mil
 US_RAW = [s for s in US_PARSED if s != "dimensionless"]
 PARSE_ONLY = ["degC", "degC/hour", "kilodegC", "nosuchunit", "kiloblip", "millikilosmoot"]
 SHADOW = ["dam"]          # used by the directed shadowing histories only
-ALL_STRINGS = US_PARSED + PARSE_ONLY + SHADOW
+ALL_STRINGS = US_PARSED + PARSE_ONLY + SHADOW      # extended below by the spellings of CI
 FORMATS = ["", "~", "P", "~P", "C", "D", "H", "L"]
+# case-insensitive questions (oracle only): (ordinary spelling that may have been looked up before, other letter case)
+CI = [("kiloinch", "KILOINCH"), ("kiloinch", "Kiloinch"), ("millisecond", "MILLISECOND"), ("kilometer", "KiloMeter"),
+      ("meter", "METER"), ("inch", "Inch"), ("kilosmoot", "KILOSMOOT"), ("microfoot", "MICROFOOT")]
+ALL_STRINGS = ALL_STRINGS + [w for w, _ in CI if w not in ALL_STRINGS]
 
 
 def canon_num(x):
@@ -142,6 +146,8 @@ class World:
                 return ("num", canon_num(ureg.convert(F(1), op[1], op[2])))
             if k == "parse":
                 return ("unit", ucd(ureg.parse_units(op[1])._units))
+            if k == "parse_ci":
+                return ("unit", ucd(ureg.parse_units(op[1], case_sensitive=False)._units))
             if k == "root":
                 f, u = ureg.get_root_units(op[1])
                 return ("fac", canon_num(f), ucd(u._units))
@@ -460,7 +466,7 @@ def _writeall(fd, data):
         mv = mv[k:]
 
 
-QUERY_KINDS = {"convert", "parse", "root", "dim", "base", "compat", "qdim", "qcheck", "fmt", "qfmt", "compact", "to",
+QUERY_KINDS = {"convert", "parse", "parse_ci", "root", "dim", "base", "compat", "qdim", "qcheck", "fmt", "qfmt", "compact", "to",
                "compatible", "contains"}
 
 
@@ -540,7 +546,7 @@ def op_kind(op, klass, dflt="?"):
         return "other:" + op_kind(op[1], klass, dflt)
     if k == "mkother":
         return "other:create"
-    name = {"convert": "convert", "parse": "parse", "root": "get_root_units", "dim": "get_dimensionality",
+    name = {"convert": "convert", "parse": "parse", "parse_ci": "parse[case-insensitive]", "root": "get_root_units", "dim": "get_dimensionality",
             "base": "get_base_units", "compat": "get_compatible_units", "define": "define", "enable": "enable",
             "disable": "disable", "setsys": "set_default_system", "qnew": "quantity.new", "qimul": "quantity.imul",
             "qdim": "quantity.dimensionality", "qcheck": "quantity.check", "fmt": "format", "qfmt": "format",
@@ -805,8 +811,11 @@ def random_ops(rng, n, model_only=True, with_other=True):
                 op = ("to", u, rng.choice(["meter", "foot", "smoot", "km/hour", "hertz"]), rng.choice(["1", "5/2"]))
             elif y < 0.8:
                 op = ("qfmt", u, rng.choice(["3", "1/2"]), rng.choice(["", "~", "~P"]))
-            elif y < 0.9:
+            elif y < 0.85:
                 op = ("compatible", u, rng.choice(["meter", "second", "hertz", "smoot"]))
+            elif y < 0.95:
+                w, q = rng.choice(CI)
+                op = rng.choice([("parse", w), ("parse_ci", q), ("parse_ci", q), ("convert", w, "meter")])
             else:
                 op = ("contains", rng.choice(ALL_STRINGS))
         if with_other and op[0] not in ("mkother",) and rng.random() < 0.12:
@@ -843,10 +852,21 @@ def isolation_histories():
                ("other", ("compat", "meter")), ("other", ("setsys", "cgs")), ("other", ("base", "meter", None)), ("base", "meter", None)])
     hs.append([("qnew", "meter"), ("qdim",), ("mkother",), ("other", ("qnew", "second")), ("other", ("qdim",)), ("qdim",),
                ("parse", "kiloinch"), ("other", ("parse", "millikiloinch"))])
+    # case-insensitive lookup after an ordinary lookup of the same prefixed unit
+    for w, q in CI:
+        hs.append([("parse", w), ("parse_ci", q), ("convert", w, "meter"), ("parse_ci", q)])
+        hs.append([("parse_ci", q), ("root", w), ("parse_ci", q)])
+        hs.append([("enable", "ra"), ("parse", w), ("dim", w), ("disable",), ("parse_ci", q)])
+        hs.append([("mkother",), ("other", ("parse", w)), ("parse_ci", q), ("other", ("parse_ci", q))])
     # a define that gives an old spelling a new reading (F104)
     for q in [("dim", "dam"), ("base", "dam", None), ("compat", "dam"), ("root", "dam"), ("parse", "dam"), ("convert", "dam", "meter")]:
         hs.append([q, ("define", "am"), q, ("root", "dam"), ("dim", "dam")])
     return hs
+
+
+# the base-unit memo against systems x contexts: every sequence up to length 5 / 6
+BASE_ALPHABET = [("base", "inch", None), ("base", "inch", "imperial"), ("enable", "ra"), ("disable",),
+                 ("setsys", "imperial"), ("setsys", None)]
 
 
 WITNESSES = {
@@ -1169,6 +1189,9 @@ def _run(ck, rng, thorough, klass, tk, systems, fresh, chk, coq_ok):
     # exhaustive exploration: one fork tree per first operation
     T["histories"] = time.time()
     trees = parallel(lambda op: explore(EXH_ALPHABET, depth, [op]), EXH_ALPHABET)
+    depth_b = 6 if thorough else 5
+    roots_b = [[a, b] for a in BASE_ALPHABET for b in BASE_ALPHABET]
+    trees_b = parallel(lambda pre: explore(BASE_ALPHABET, depth_b, pre), roots_b)
     T["exhaustive"] = time.time()
 
     # ---- 3. the fresh-registry oracle on every step
@@ -1186,8 +1209,16 @@ def _run(ck, rng, thorough, klass, tk, systems, fresh, chk, coq_ok):
         p = precs[0]
         flat.append(([op0], p[1], p[2], p[3], p[4]))
         flatten_tree([op0], kids, flat)
+    n_general = len(flat)
+    for pre, (precs, kids) in zip(roots_b, trees_b):
+        p0, p1 = precs
+        if pre[1] == BASE_ALPHABET[0]:
+            flat.append(([pre[0]], p0[1], p0[2], p0[3], p0[4]))
+        flat.append((list(pre), p1[1], p1[2], p1[3], p1[4]))
+        flatten_tree(list(pre), kids, flat)
     ck.extra["exhaustive_histories"] = len(flat)
-    ck.extra["exhaustive_depth"] = depth
+    ck.extra["exhaustive_depth"] = {"12-op alphabet": depth, "6-op base-units alphabet": depth_b}
+    ck.extra["exhaustive_histories_by_alphabet"] = {"12-op alphabet": n_general, "6-op base-units alphabet": len(flat) - n_general}
     for h, rr, ans, before, qu in flat:
         inner = h[-1][1] if h[-1][0] == "other" else h[-1]
         q = oracle_question(inner, qu)
@@ -1226,6 +1257,11 @@ def _run(ck, rng, thorough, klass, tk, systems, fresh, chk, coq_ok):
         p = precs[0]
         cases.append("HRun SU0 [" + coq_node(op0, p[2], False, tree_term(kids, None)) + "]")
         descs.append({"exhaustive_tree_rooted_at": list(op0)})
+    for pre, (precs, kids) in zip(roots_b, trees_b):
+        p0, p1 = precs
+        inner = coq_node(pre[1], p1[2], False, tree_term(kids, None))
+        cases.append("HRun SU0 [" + coq_node(pre[0], p0[2], False, [inner]) + "]")
+        descs.append({"exhaustive_tree_rooted_at": [list(pre[0]), list(pre[1])]})
     bad = ck.coq_mismatches("c13", hdr, cases, "c13_ok", shard=max(1, len(cases) // (2 * NCPU) + 1)) if coq_ok else None
     T["coq"] = time.time()
     ks = list(T)
